@@ -187,6 +187,10 @@ func (br *BlockReader) SkipNext() (*BlockMetadata, error) {
 
 	cidSize, c, err := cid.CidFromReader(io.LimitReader(br.r, int64(sectionSize)))
 	if err != nil {
+		if err == io.EOF {
+			// The length prefix promised a section; running dry here is a truncation, not a clean end.
+			err = io.ErrUnexpectedEOF
+		}
 		return nil, err
 	}
 
